@@ -8,7 +8,7 @@ TB_COMMON = [
 
 PROPS = {
     "C07": {
-        "n_quick": 250, "n_thorough": 4000,
+        "n_quick": 400, "n_thorough": 4000,
         "check_fn": "k07_check",
         "rule": "types generated to depth 3 (4 thorough) over all kinds with placeholders, optional attributes, capsules; "
                 "pairs = identical / single-position mutant / independent; JSON type documents = real encoder output plus "
